@@ -264,7 +264,12 @@ def mon_c13(tr):
 
 
 def mon_c04(tr):
-    if "result" not in tr or tr["final"]["level"] != 0:
+    if "result" not in tr:
+        return None
+    if tr["spec"].get("noise", "det") == "det" and tr["final"]["level"] != 0:
+        # whether the target is deterministic is a fact about the TARGET (the harness knows it), not what the optimiser concluded
+        return ("fsd-type", f"an exactly repeatable target was handled as stochastic (uncertainty level {tr['final']['level']}, target_type {tr['result'].get('target_type')!r})")
+    if tr["final"]["level"] != 0:
         return None
     r = tr["result"]
     vals = [(c["xo"], c["out"][1]) for c in tr["calls"] if c["out"] and c["out"][0] == "ok"]
